@@ -11,7 +11,7 @@ def generate(T, tier):
     ]
     return {
         "harnesses": hs,
-        "groups": {"stub": {"features": ["c20"], "est_gb": 6, "timeout_s": 2400, "kani_args": ["-Z", "stubbing"]}},
+        "groups": {"stub": {"features": ["c20"], "est_gb": 12, "mem_gb": 24, "max_jobs": 3, "timeout_s": 2400, "kani_args": ["-Z", "stubbing"]}},
         "level": "model_checking",
         "functions": ["<Df88591String<N> as Serialize>::serialize / Deserialize::deserialize (hand written)", "<ArrayString<N> as Serialize/Deserialize> (hand written)",
                       "derived impls of Msg1230T, Msg1230CodePhaseBias, GloSigId, DataVec (tinyvec ArrayVec), Msg1006T"],
